@@ -130,6 +130,10 @@ def upd2 {κ₁ κ₂ : Type} [DecidableEq κ₁] [DecidableEq κ₂] {β : Type
 inductive Move (ε : Type) where
   /-- producer `p` calls a `Batcher` operation on its batcher for `c` -/
   | batcher (p : Coord) (c : Endpoint) (op : Batcher.Op ε)
+  /-- producer `p` hands a whole batch directly to its `NetworkSender` for `c`, without a `Batcher`
+      (the iteration leader does, and the `FakeSender`s of the `mux` harness). A sender is either
+      wrapped in a batcher or used directly, never both: the move requires an empty batcher buffer. -/
+  | send (p : Coord) (c : Endpoint) (body : List ε)
   /-- the mux thread of connection `k` takes one message and writes its frame (multiplexer.rs:139) -/
   | muxSend (k : Conn)
   /-- the demux thread of connection `k` reads one frame and routes it (demultiplexer.rs:178) -/
@@ -160,6 +164,10 @@ def step (mode : Coord → Batcher.Mode) (s : State ε) : Move ε → State ε
         buffer := upd2 s.buffer p c r.1,
         emitted := upd2 s.emitted p c (s.emitted p c ++ Batcher.enqueued [op]) }
       sendTo s1 p c r.2
+    else s
+  | .send p c body =>
+    if (s.buffer p c).isEmpty && hasRoom s p c then
+      sendTo { s with emitted := upd2 s.emitted p c (s.emitted p c ++ body) } p c [body]
     else s
   | .muxSend k =>
     match s.mux k with
